@@ -32,6 +32,6 @@ def run(v, tier, seed, replay):
                     dict(kind="correspondence", theorem="C04_snapshots_canonical", mismatches=mism_all, seed=seed, tier=tier), no_input=False)
     v.coverage["trusted_base"] = vlib.TRUSTED_COMMON + [
         "no hypothesis on the hash function",
-        "history insertion (pruneToInsert, insert visitor, write cache as an unbounded overlay, mutations) is modelled and proved to compute the spec root; the hyper batch/cache/store code is modelled (Hyper/HyperBatch.v: batches, shortcut push-down, cache/tiles/store writes, cache rebuild) and compared with the Go code table by table and with the spec construction on every snapshot; that the batch-level model computes the spec root is not proved",
+        "history insertion (pruneToInsert, insert visitor, write cache as an unbounded overlay, mutations) is modelled and proved to compute the spec root; the hyper batch/cache/store code is modelled (Hyper/HyperBatch.v: batches, shortcut push-down, cache/tiles/store writes, cache rebuild) and compared with the Go code table by table and with the spec construction on every snapshot; that the batch-level model computes the spec root is proved (C04_hyper_batches_compute_the_published_root) for the insertion path; the cache rebuild on reopen and the persisted tiles are compared only",
         "restarts are not a model transition: the model has no volatile state, so 'restart is invisible' is checked by comparing Go runs with reopen against the model run without"]
     v.assumptions = ["events distinct for the grouping-independence of the hyper digest (as the property states)", "LRU write cache (300) never evicts an unpersisted node that is still needed"]
